@@ -160,6 +160,12 @@ def gen_case(run_seed: int, index: int, tier: str) -> dict:
     case["mod"], case["B"], case["b"] = mod, B, b
     zero_msg = rng.random() < 0.05
     case["messages"] = [[0 if zero_msg else rng.randrange(2) for _ in range(b * k)] for _ in range(B)]
+    if rng.random() < 0.3:  # the same chain object has been used before (other batch sizes, same framing)
+        case["warmup_messages"] = [[[rng.randrange(2) for _ in range(b * k)] for _ in range(rng.choice([1, 1, 2, 3]))] for _ in range(rng.choice([1, 1, 2, 3]))]
+    if rng.random() < 0.15:  # a similar code (same encoder class, same n and k) was set up earlier in the process
+        sib = C.sibling_spec(rng, spec)
+        if sib is not None:
+            case["prelude"] = sib
     llr_floor = 10 ** rng.uniform(0.0, 1.5)  # smallest |LLR| the soft run will contain (1 .. 31), see below
     # ---- the plan itself
     if pk == "ideal":
@@ -255,6 +261,10 @@ def execute(case: dict) -> RunResult:
     msg = torch.tensor(case["messages"], dtype=torch.float32)
     log.add("result", {"out": lr.out if lr.exc is None else f"raised {type(lr.exc).__name__}", "in_budget": lr.in_budget, "fired": lr.fired})
     res.probes[f"plan.{plan['kind']}"] += 1
+    if case.get("warmup_messages"):
+        res.faults["history.earlier_calls_on_same_chain"] += len(case["warmup_messages"])
+    if case.get("prelude"):
+        res.faults["history.sibling_code_built_first"] += 1
     res.probes["soft_runs" if case["soft"] else "hard_runs"] += 1
     if plan["kind"] == "ideal" or not damaged:
         res.probes["zero_fault_runs"] += 1
@@ -321,6 +331,16 @@ def shrink_candidates(case: dict):
         c = copy.deepcopy(case)
         c["via_registry"] = False
         yield c
+    for key in ("warmup_messages", "prelude"):
+        if case.get(key):
+            c = copy.deepcopy(case)
+            del c[key]
+            yield c
+    if case.get("warmup_messages") and len(case["warmup_messages"]) > 1:
+        for i in range(len(case["warmup_messages"])):
+            c = copy.deepcopy(case)
+            c["warmup_messages"].pop(i)
+            yield c
 
 
 def sample_of(case):
